@@ -335,6 +335,21 @@ func TestDialRealUpgrader(t *testing.T) {
 			anyGenuine = anyGenuine || answers[i] == "P"
 			anyForeign = anyForeign || answers[i] == "Q"
 		}
+		// the peer the dial names: P's ID, or (1 in 5) a non-empty byte string that is nobody's ID, derived from
+		// the ID of whoever answers at the first address
+		named, namedClass := P.ID, "P"
+		if rapid.IntRange(0, 4).Draw(rt, "named") == 0 {
+			namedClass = rapid.SampledFrom(namedKinds).Draw(rt, "namedClass")
+			resident := P.ID
+			if answers[0] == "Q" {
+				resident = Q.ID
+			}
+			named = drawNamedID(rt, namedClass, resident, "named")
+			if named == P.ID || named == Q.ID || named == local.ID {
+				named += "\x01"
+			}
+		}
+		namesP := named == P.ID
 		common, result := false, ""
 		for _, a := range dsec {
 			for _, b := range asec {
@@ -380,13 +395,13 @@ func TestDialRealUpgrader(t *testing.T) {
 					nw.at[m.String()] = qt
 				}
 			}
-			ps.AddAddrs(P.ID, mas, time.Hour)
+			ps.AddAddrs(named, mas, time.Hour)
 			ctx, cancel := context.WithTimeout(context.Background(), time.Minute)
-			conn, err := sw.DialPeer(ctx, P.ID)
+			conn, err := sw.DialPeer(ctx, named)
 			cancel()
 			synctest.Wait()
-			cx := fmt.Sprintf("answers=%v dialerSec=%v answerSec=%v p=%s q=%s", answers, dsec, asec, tp, tq)
-			checkNoForeignConn(rt, cx, sw, rec, P.ID, conn, err, anyGenuine)
+			cx := fmt.Sprintf("answers=%v dialerSec=%v answerSec=%v p=%s q=%s named=%s %x", answers, dsec, asec, tp, tq, namedClass, string(named))
+			checkNoForeignConn(rt, cx, sw, rec, named, conn, err, anyGenuine && namesP)
 			switch {
 			case conn != nil:
 				result = "connected-to-P"
@@ -395,14 +410,14 @@ func TestDialRealUpgrader(t *testing.T) {
 			default:
 				result = "refused:other"
 			}
-			if anyGenuine && !anyForeign && common && conn == nil && !noConverse {
+			if anyGenuine && !anyForeign && common && conn == nil && namesP && !noConverse {
 				rt.Fatalf("%s: the genuine peer answered but the dial failed: %v", cx, err)
 			}
 			// the connection on which Q answered must have been closed by the dialer
 			dt.mu.Lock()
 			for i, c := range dt.raw {
-				if dt.rawTo[i] == qt && !c.Closed() {
-					rt.Fatalf("%s: the raw connection on which Q answered the dial for P was left open", cx)
+				if (dt.rawTo[i] == qt || !namesP) && !c.Closed() {
+					rt.Fatalf("%s: the raw connection on which somebody other than the named peer answered the dial was left open", cx)
 				}
 			}
 			dt.mu.Unlock()
@@ -421,14 +436,17 @@ func TestDialRealUpgrader(t *testing.T) {
 			}
 			synctest.Wait()
 		})
-		labels := []string{"dialer:" + fmt.Sprint(dsec), "answerer:" + fmt.Sprint(asec), "ptype:" + tp, "qtype:" + tq, "result:" + result}
+		labels := []string{"dialer:" + fmt.Sprint(dsec), "answerer:" + fmt.Sprint(asec), "ptype:" + tp, "qtype:" + tq, "result:" + result, "named:" + namedClass}
+		if !namesP {
+			labels = append(labels, "named-wrong:swarm-dial/"+namedShape(named))
+		}
 		if !common {
 			labels = append(labels, "no-common-security-protocol")
 		}
 		for _, a := range answers {
 			labels = append(labels, "answer:"+a)
 		}
-		stats.Case(name, fmt.Sprintf("%v|%v|%v|%s|%s", answers, dsec, asec, tp, tq), anyForeign, labels...)
+		stats.Case(name, fmt.Sprintf("%v|%v|%v|%s|%s|%s|%x", answers, dsec, asec, tp, tq, namedClass, string(named)), anyForeign || (!namesP && (anyGenuine || anyForeign)), labels...)
 		if stats.WantSample(name) {
 			stats.Sample(name, map[string]any{"answers": answers, "dialerSec": dsec, "answerSec": asec, "p": tp, "q": tq})
 		}
